@@ -143,6 +143,10 @@ func parseAll(w *World, c *Case, v *harness.Verdict) *parsedWorld {
 			return nil
 		}
 		cert, err := x509.ParseCertificate(der)
+		if err != nil && label == "I" && w.IssuerSPKINoNull && !x509.IsFatal(err) && cert != nil {
+			// the one tolerated non-fatal complaint: "RSA key missing NULL parameters" on the issuer
+			return cert
+		}
 		if err != nil {
 			v.Failf("generated-cert-unclean", "%s does not parse cleanly: %v\n%x", label, err, der)
 		}
